@@ -206,7 +206,9 @@ def oracle_c05(st, info, snaps):
             raise Violation("number-fills-region", f"assigning a number raised {exc_class(info.exc)} (key form {form})",
                             cls="number-fills-region", form=form)
         for idx in region:
-            if callers_type and float(np.array(c["rhs"]).astype(t.values.dtype)) != c["rhs"]:
+            with np.errstate(all="ignore"):
+                lossy = callers_type and float(np.array(c["rhs"]).astype(t.values.dtype)) != c["rhs"]
+            if lossy:
                 continue
             if t.values[idx] != c["rhs"]:
                 raise Violation("number-fills-region", f"entry {idx} of the region is {t.values[idx]}, not {c['rhs']}",
@@ -288,7 +290,9 @@ def oracle_c05(st, info, snaps):
         for p in kept:
             lab.append(tdims[p][2][idx[p]])
         want = marg[tuple(lab)]
-        if callers_type and float(np.array(want).astype(t.values.dtype)) != want:
+        with np.errstate(all="ignore"):
+            lossy = callers_type and float(np.array(want).astype(t.values.dtype)) != want
+        if lossy:
             continue  # lossy cast into an integer / float32 target: the property does not define it
         if callers_type and t.values.dtype.kind in "iu" and not exact:
             continue  # a float sum that is whole only up to rounding noise is truncated by an integer target (1.9999999999999998 -> 1)
@@ -516,7 +520,7 @@ class ArraySim(Engine):
     # -- a task = generate while executing (ops are chosen looking at the real pool), record the op list
     def run_task(self, task, prop, seed, tier):
         rng = Rng(self.NAME, prop, seed, task["kind"], task["idx"])
-        world = gen_world(rng)
+        world = gen_world(rng, same_name=(prop == "C05" and rng.chance(0.2)))
         cfg = gen_cfg(rng, prop)
         run = {"world": world, "ops": []}
         res = self._execute(run, prop, gen=(rng, cfg))
